@@ -100,7 +100,7 @@ def run_job(args):
     res = {
         "id": spec["id"], "paths": 0, "decisions": 0, "queries": 0, "solver_time": 0.0, "crosschecked": 0,
         "asserts": 0, "violations": [], "known_hits": [], "inconclusive": [], "degraded": [], "samples": [],
-        "wall": 0.0, "cap": None, "outcomes": {},
+        "wall": 0.0, "cap": None, "outcomes": {}, "cvc5": {"asked": 0},
     }
     t0 = time.time()
     eng = symx.Engine(timeout_ms=opts.get("solver_timeout_ms", 60000), max_ticks=spec.get("max_ticks", opts.get("max_ticks")))
@@ -185,6 +185,15 @@ def run_job(args):
                         res["violations"].append(v)
             elif q != z3.unsat:
                 res["inconclusive"].append(f"solver unknown on assertion {label}")
+            elif opts.get("cvc5") and res["cvc5"]["asked"] < opts.get("cvc5_per_job", 2) and not z3.is_true(z3.simplify(term)):
+                from vf.cvc5x import recheck
+
+                extra = [neg] + ([z3.Not(R)] if regions else [])
+                c = recheck(list(e.pc), extra)
+                res["cvc5"]["asked"] += 1
+                res["cvc5"][c] = res["cvc5"].get(c, 0) + 1
+                if c == "sat":
+                    res["inconclusive"].append(f"SOLVER DISAGREEMENT on assertion {label}: z3 unsat, cvc5 sat")
             for k, r in regions:
                 if any(hit["entry"] == k["id"] for hit in res["known_hits"]):
                     continue
